@@ -8,7 +8,7 @@
      - preservation of the meaning of units that reference other non-standard units: the claim is FALSE for the code
        (C06_units_meaning_refuted) and no sufficient condition beyond first-level units was proved. *)
 From Coq Require Import List String QArith Bool Arith.
-From LC Require Import Common NumDefs UnitsDefs FlattenDefs FlattenProofs FlattenOwn FlattenShape FlattenTerm FlattenUnits.
+From LC Require Import Common NumDefs UnitsDefs FlattenDefs FlattenProofs FlattenOwn FlattenShape FlattenTerm FlattenUnits FlattenTermPos.
 Import ListNotations.
 Local Open Scope string_scope.
 Local Open Scope nat_scope.
@@ -394,7 +394,50 @@ Theorem C06_flatten_with_guard_diverges_bounded :
 Proof. split; [exact FlattenTerm.rec_witness_acyclic | exact FlattenTerm.flatten_with_guard_diverges_bounded]. Qed.
 Print Assumptions C06_flatten_with_guard_diverges_bounded.
 
-(* NOT PROVED (and false as stated, see above): C06_flatten_terminates_with_guard -- with fx_cycle_guard = true Units::equivalent no longer diverges
+(* The positive half, for the recursion that still diverges on HEAD -- transferUnitsRenamingIfRequired with the guarded
+   Units::equivalent (FlattenTermPos.v).  Decidable hypothesis: ranked_b S rl = true, a boolean check that every reference of a
+   units of the source list S to a units of S goes down in the rank assignment rl (the source's reference graph is acyclic:
+   what it is for a clone of a valid imported file, and what a captured name destroys: capture_is_not_ranked).  Then, whatever
+   units is transferred and from whatever state, fuel transfer_fuel_bound rl = max rank + 2 is enough: the result is never FFuel. *)
+Theorem C06_flatten_terminates_without_capture_partial : forall rl fx libs orphan u s,
+  fx_cycle_guard fx = true -> ranked_b (us_S s) rl = true ->
+  transfer (transfer_fuel_bound rl) fx libs orphan u s <> FFuel.
+Proof. exact FlattenTermPos.transfer_terminates_without_capture. Qed.
+Print Assumptions C06_flatten_terminates_without_capture_partial.
+
+(* the sharper form: references of rank < n need fuel n + 1 *)
+Theorem C06_transfer_terminates : forall rl fuel n fx libs orphan u s,
+  fx_cycle_guard fx = true -> ranked_b (us_S s) rl = true -> refs_below (us_S s) rl n u ->
+  n < fuel -> transfer fuel fx libs orphan u s <> FFuel.
+Proof. exact FlattenTermPos.transfer_terminates. Qed.
+Print Assumptions C06_transfer_terminates.
+
+(* the guarded Units::equivalent never diverges *)
+Theorem C06_equivalent_guarded_total : forall fx libs ms ia na ib nb, fx_cycle_guard fx = true ->
+  units_equivalent_g fx libs ms ia na ib nb <> FFuel.
+Proof. exact FlattenTermPos.ueg_not_fuel. Qed.
+Print Assumptions C06_equivalent_guarded_total.
+
+(* not vacuous (hand case same_name_different_units: mm2 = mm^2 transferred next to another mm), and the hypothesis fails on
+   the captured clone q = [q] of C06_flatten_with_guard_diverges_bounded *)
+Example C06_transfer_terminates_nonvacuous :
+  ranked_b (us_S tp_state) tp_ranks = true /\ transfer_fuel_bound tp_ranks = 3 /\
+  exists s', transfer (transfer_fuel_bound tp_ranks) flat_current_fixes [] false tp_mm2 tp_state = FOk (s', true, [], "mm2") /\
+             map (fun u => (u_name u, map uc_ref (u_defs u))) (us_T s') = [("mm", ["metre"]); ("mm_1", ["metre"]); ("mm2", ["mm_1"])].
+Proof. exact FlattenTermPos.transfer_terminates_nonvacuous. Qed.
+Print Assumptions C06_transfer_terminates_nonvacuous.
+
+Example C06_capture_is_not_ranked : forall rl,
+  ranked_b [ {| u_own := OFresh 1; u_name := "q"; u_imp := None; u_defs := [tp_uc "q" "" 1] |} ] rl = false.
+Proof. exact FlattenTermPos.capture_is_not_ranked. Qed.
+Print Assumptions C06_capture_is_not_ranked.
+
+(* NOT PROVED: the same for the other fuelled loops (retrieve / flatten_units_imports, required_loop, flatten_component_imports,
+   the two top loops, the while-hasImports rounds), and the step from an INPUT-level predicate (no units name denoting different
+   units in two files of the closure, no N_<digits> next to N: checks/c06.py case_facts) to "every source list handed to transfer
+   is ranked": that needs the invariant that the required-units loop only writes names into the clone that are not names of the
+   clone, which was not established.
+   NOT PROVED (and false as stated, see above): C06_flatten_terminates_with_guard -- with fx_cycle_guard = true Units::equivalent no longer diverges
    (units_equivalent_g never answers FFuel: by definition), so on an acyclic import graph the remaining sources of FFuel are the
    model's own fuelled loops; termination with rounds = maximal import rank + 1 is plausible but needs a measure
    through nine fuelled functions (transfer, retrieve / flatten_units_imports, referenced_units, units_used, required_loop,
